@@ -6,25 +6,30 @@ Require Import Mixin.Model.Group.
 Import ListNotations.
 Open Scope Z_scope.
 
-Definition cg (l a b : Z) : Prop := a mod l = b mod l.
+(* sealed: [cg] never unfolds to an equation, so [rewrite] always goes through
+   the Proper instances below *)
+Definition cg_pack : { R : Z -> Z -> Z -> Prop | forall l a b, R l a b <-> a mod l = b mod l }.
+Proof. exists (fun l a b => a mod l = b mod l). intros; reflexivity. Qed.
+
+Definition cg : Z -> Z -> Z -> Prop := proj1_sig cg_pack.
 
 Lemma cg_iff : forall l a b, cg l a b <-> a mod l = b mod l.
-Proof. reflexivity. Qed.
+Proof. exact (proj2_sig cg_pack). Qed.
 
 #[global] Instance cg_equiv l : Equivalence (cg l).
 Proof.
-  split; unfold cg; [intros x; reflexivity | intros x y H; symmetry; exact H
-                    | intros x y z H1 H2; rewrite H1; exact H2].
+  split; [intros x; apply cg_iff; reflexivity | intros x y H; apply cg_iff; apply cg_iff in H; symmetry; exact H
+         | intros x y z H1 H2; apply cg_iff; apply cg_iff in H1; apply cg_iff in H2; rewrite H1; exact H2].
 Qed.
 
 #[global] Instance cg_add l : Proper (cg l ==> cg l ==> cg l) Z.add.
-Proof. intros a b H c d H'. unfold cg in *. rewrite Zplus_mod, H, H', <- Zplus_mod. reflexivity. Qed.
+Proof. intros a b H c d H'. apply cg_iff. apply cg_iff in H. apply cg_iff in H'. rewrite Zplus_mod, H, H', <- Zplus_mod. reflexivity. Qed.
 
 #[global] Instance cg_sub l : Proper (cg l ==> cg l ==> cg l) Z.sub.
-Proof. intros a b H c d H'. unfold cg in *. rewrite Zminus_mod, H, H', <- Zminus_mod. reflexivity. Qed.
+Proof. intros a b H c d H'. apply cg_iff. apply cg_iff in H. apply cg_iff in H'. rewrite Zminus_mod, H, H', <- Zminus_mod. reflexivity. Qed.
 
 #[global] Instance cg_mul l : Proper (cg l ==> cg l ==> cg l) Z.mul.
-Proof. intros a b H c d H'. unfold cg in *. rewrite Zmult_mod, H, H', <- Zmult_mod. reflexivity. Qed.
+Proof. intros a b H c d H'. apply cg_iff. apply cg_iff in H. apply cg_iff in H'. rewrite Zmult_mod, H, H', <- Zmult_mod. reflexivity. Qed.
 
 #[global] Instance cg_opp l : Proper (cg l ==> cg l) Z.opp.
 Proof.
@@ -33,19 +38,18 @@ Proof.
 Qed.
 
 Lemma cg_mod : forall l a, cg l (a mod l) a.
-Proof. intros. unfold cg. apply Zmod_mod. Qed.
+Proof. intros. apply cg_iff. apply Zmod_mod. Qed.
 
 Lemma cg_eq : forall l a b, a = b -> cg l a b.
 Proof. intros; subst; reflexivity. Qed.
 
 Lemma cg_small : forall l a b, 0 <= a < l -> 0 <= b < l -> cg l a b -> a = b.
-Proof. unfold cg. intros l a b Ha Hb H. rewrite !Z.mod_small in H by assumption. exact H. Qed.
+Proof. intros l a b Ha Hb H. apply cg_iff in H. rewrite !Z.mod_small in H by assumption. exact H. Qed.
 
 Lemma cg_zero_mod : forall l a, cg l a 0 <-> a mod l = 0.
-Proof. unfold cg. intros. rewrite Zmod_0_l. reflexivity. Qed.
+Proof. intros. rewrite cg_iff, Zmod_0_l. reflexivity. Qed.
 
 #[global] Typeclasses Opaque cg.
-#[global] Opaque cg.
 
 Ltac cg_ring := apply cg_eq; ring.
 
